@@ -773,6 +773,7 @@ func runH(t *testing.T, ch *vs.Choices, prop, tier string, render bool) *vs.RunO
 			var agg *vs.RunOut
 			for n := 1; n <= maxN; n++ {
 				hist[ci].CrashN = n
+				vs.Tick()
 				o := runHOne(t, ch, prop, render, p, hist)
 				fired := o.Reach["fault:crash@cmd"]+o.Reach["fault:crash@fingerprint"] > 0
 				if fired {
